@@ -3,6 +3,7 @@ package harness
 // C12 — minimisation reaches the exact boundary on threshold properties.
 
 import (
+	"flag"
 	"fmt"
 	"math"
 	"reflect"
@@ -241,6 +242,14 @@ func c12Run(t *testing.T, sc Scenario, res *Result) {
 				}
 			}
 			return true, ""
+		}
+	}
+	if mix(sc.Seed, 0x5407)%5 == 0 && sc.X["slow"] != "1" {
+		// -short is a configuration, too (a fifth of the checks, half of the steps): exactness must not depend on it
+		if err := flag.Set("test.short", "true"); err == nil {
+			defer flag.Set("test.short", "false")
+			fl["rapid.checks"] = "1000000" // divided by 5 under -short
+			res.inc("short_mode_runs")
 		}
 	}
 	if sc.X["slow"] == "1" {
